@@ -504,6 +504,45 @@ fn battery(ctx: &Ctx, c: &Corrupted, stats: &Stats, counting: bool, deep_faults:
 			Out::Ok(_) => {}
 		}
 	}
+	// the third option: `debug` dumps every event's payload into a directory (one case in 32, small inputs)
+	if bytes.len() <= 4096 && rt::hash_bytes(bytes) % 32 == 5 {
+		let out = rt::with_debug_dir(|dir| {
+			let mut worst: Option<(bool, bool, String)> = None;
+			for (skip, hash) in [(false, false), (true, true)] {
+				let o = de::Opts { skip_frames: skip, compute_hash: hash, debug: Some(de::Debug { dir: dir.to_path_buf() }) };
+				let mut r = SchedReader::new(bytes, Schedule::Full);
+				if let Out::Panic(p) = rt::guard(|| peppi::io::slippi::read(&mut r, Some(&o))) {
+					worst = Some((skip, hash, p));
+					break;
+				}
+			}
+			if worst.is_none() {
+				// incremental API with the same option
+				let o = de::Opts { skip_frames: false, compute_hash: false, debug: Some(de::Debug { dir: dir.to_path_buf() }) };
+				let mut r = SchedReader::new(bytes, Schedule::Full);
+				let res = rt::guard(|| -> Result<(), String> {
+					let size = de::parse_header(&mut r, Some(&o)).map_err(|e| e.to_string())? as usize;
+					let mut state = de::parse_start(&mut r, Some(&o)).map_err(|e| e.to_string())?;
+					while state.bytes_read() < size {
+						if de::parse_event(&mut r, &mut state, Some(&o)).map_err(|e| e.to_string())? == de::Event::GameEnd as u8 {
+							break;
+						}
+					}
+					Ok(())
+				});
+				if let Out::Panic(p) = res {
+					worst = Some((false, false, format!("(incremental) {}", p)));
+				}
+			}
+			worst
+		});
+		if counting {
+			ctx.class("read_with_debug_option");
+		}
+		if let Some((skip, hash, p)) = out {
+			return Err(mk(format!("op=read panic debug~{}", rt::panic_site(&p)), format!("slippi::read(skip_frames={}, compute_hash={}, debug=Some(dir)) panicked: {}", skip, hash, p)));
+		}
+	}
 	// incremental API over the same input
 	if let Out::Panic(p) = incremental_guarded(bytes) {
 		return Err(mk(format!("op=incremental panic~{}", rt::panic_site(&p)), format!("incremental API panicked: {}", p)));
@@ -602,41 +641,65 @@ fn deep_probe(depth: usize) -> Vec<u8> {
 }
 
 const DEPTHS: [usize; 7] = [126, 127, 128, 1000, 20_000, 100_000, 1_000_000];
+/// lengths of runs of non-final Message Splitter blocks (a Gecko list of that many 512-byte blocks)
+const SPLITTER_RUNS: [usize; 4] = [600, 5_000, 40_000, 40_001];
+
+/// A v3.16 replay whose Gecko list consists of `n` splitter blocks (all but the last non-final);
+/// odd `n`: the file is cut in the middle of the run.
+fn splitter_probe(n: usize) -> Vec<u8> {
+	let mut m = crate::gen::simple_model((3, 16, 0), &[(0, false), (1, false)], 1, 1, crate::gen::Pattern::Zero, 1, true);
+	m.gecko = Some(crate::model::Gecko { bytes: vec![0x4e; n * 512], actual: (n * 512 - 3) as u32 });
+	let mut b = m.encode();
+	if n % 2 == 1 {
+		b.truncate(b.len() / 2);
+	}
+	b
+}
+
+fn probe_bytes(kind: &str, n: usize) -> Vec<u8> {
+	match kind {
+		"splitter_run" => splitter_probe(n),
+		_ => deep_probe(n),
+	}
+}
 
 fn isolated_probes(ctx: &Ctx) -> Option<(Fail, Value)> {
 	let dir = format!("{}/work", ctx.root);
 	let _ = std::fs::create_dir_all(&dir);
-	for depth in DEPTHS {
-		let bytes = deep_probe(depth);
-		let path = format!("{}/c06_deep_{}_{}.slp", dir, depth, std::process::id());
+	let probes: Vec<(&str, usize)> = DEPTHS.iter().map(|d| ("deep", *d)).chain(SPLITTER_RUNS.iter().map(|n| ("splitter_run", *n))).collect();
+	for (kind, n) in probes {
+		let bytes = probe_bytes(kind, n);
+		let path = format!("{}/c06_{}_{}_{}.slp", dir, kind, n, std::process::id());
 		std::fs::write(&path, &bytes).expect("write probe");
 		for mode in ["slp", "incremental"] {
 			ctx.eval();
-			ctx.class("isolated_deep_probe");
-			ctx.nontrivial(rt::hash_bytes(&[&depth.to_le_bytes()[..], mode.as_bytes()].concat()));
-			let r = watch::isolated_read(&path, false, depth % 2 == 0, mode, 120);
+			ctx.class(&format!("isolated_{}_probe", kind));
+			ctx.nontrivial(rt::hash_bytes(&[&n.to_le_bytes()[..], mode.as_bytes(), kind.as_bytes()].concat()));
+			let r = watch::isolated_read(&path, false, n % 2 == 0, mode, 120);
+			let what = if kind == "deep" { format!("metadata nested {} deep", n) } else { format!("a run of {} Message Splitter blocks{}", n, if n % 2 == 1 { " (file cut inside the run)" } else { "" }) };
 			let bad = match &r {
 				ChildResult::Returned(_) => None,
-				ChildResult::Signal(sig, tail) => Some((format!("op=read abort signal={} depth>={}", sig, if depth >= 1000 { 1000 } else { depth }), format!("metadata nested {} deep ({} bytes): the process died with signal {} ({})", depth, bytes.len(), sig, tail))),
-				ChildResult::Panicked(t) => Some((format!("op=read panic deep depth={}", depth), format!("metadata nested {} deep: panic {}", depth, t))),
+				ChildResult::Signal(sig, tail) => Some((format!("op=read abort signal={} {}>={}", sig, kind, if n >= 1000 { 1000 } else { n }), format!("{} ({} bytes): the process died with signal {} ({})", what, bytes.len(), sig, tail))),
+				ChildResult::Panicked(t) => Some((format!("op=read panic {} n={}", kind, n), format!("{}: panic {}", what, t))),
 				ChildResult::TimedOut => {
-					eprintln!("deep probe timed out: inconclusive");
+					eprintln!("{} probe timed out: inconclusive", kind);
 					std::process::exit(2);
 				}
 				ChildResult::Other(o) => {
-					eprintln!("deep probe could not run: {}", o);
+					eprintln!("{} probe could not run: {}", kind, o);
 					std::process::exit(2);
 				}
 			};
 			if let Some((sig, msg)) = bad {
 				let _ = std::fs::remove_file(&path);
 				// keep the replay small: the generator parameters reproduce the file
-				return Some((Fail::new(sig, msg).with_detail(json!({"depth": depth, "mode": mode})), json!({"depth": depth, "mode": mode})));
+				let p = if kind == "deep" { json!({"depth": n, "mode": mode}) } else { json!({"probe": kind, "n": n, "mode": mode}) };
+				return Some((Fail::new(sig, msg).with_detail(p.clone()), p));
 			}
 		}
 		let _ = std::fs::remove_file(&path);
 	}
-	ctx.sample(json!({"kind": "isolated_deep_probe", "depths": DEPTHS, "modes": ["one-shot", "incremental"], "how": "child process; death by signal = abort"}));
+	ctx.sample(json!({"kind": "isolated_probes", "metadata_depths": DEPTHS, "splitter_runs": SPLITTER_RUNS, "modes": ["one-shot", "incremental"], "how": "child process; death by signal = abort"}));
 	None
 }
 
@@ -648,9 +711,9 @@ pub fn case(ctx: &Ctx, kind: &str, params: &Value, counting: bool) -> Result<(),
 	let stats = Stats { errors: Mutex::new(BTreeSet::new()) };
 	match kind {
 		"deep" => {
-			let depth = params["depth"].as_u64().unwrap_or(1000) as usize;
+			let depth = params.get("depth").or_else(|| params.get("n")).and_then(|v| v.as_u64()).unwrap_or(1000) as usize;
 			let mode = params["mode"].as_str().unwrap_or("slp").to_string();
-			let bytes = deep_probe(depth);
+			let bytes = probe_bytes(params["probe"].as_str().unwrap_or("deep"), depth);
 			let path = format!("{}/work/c06_replay_{}.slp", ctx.root, std::process::id());
 			let _ = std::fs::create_dir_all(format!("{}/work", ctx.root));
 			std::fs::write(&path, &bytes).map_err(|e| Fail::new("io", e.to_string()))?;
